@@ -298,6 +298,9 @@ def g_points(ctx, rng, i):
             _try(g.crossratio, *Pc)
             _try(g.crossratio, Pc[1], Pc[0], Pc[3], Pc[2])
             if n >= 3:
+                _try(g.harmonic_set, Pc[0], Pc[1], Pc[2])
+                _try(g.harmonic_set, Pc[2], Pc[0], Pc[3])
+            if n >= 3:
                 _try(g.crossratio, *[g.PointCollection(np.stack([p.array, q.array])) for p, q in zip(Pc, Pc[::-1])])
     # non-collinear quadruple: must raise (2D and 3D)
     if n >= 3:
